@@ -1,0 +1,18 @@
+// SPDX-FileCopyrightText: 2014-2024 caixw
+//
+// SPDX-License-Identifier: MIT
+
+//go:build verif
+
+package tree
+
+import "sync"
+
+// VerifHook 仅用于验证：在每一次访问路由树之前报告访问位置、读写类型以及该树的锁。
+var VerifHook func(locker *sync.RWMutex, site string, write bool)
+
+func (tree *Tree[T]) vhook(site string, write bool) {
+	if VerifHook != nil {
+		VerifHook(tree.locker, site, write)
+	}
+}
